@@ -709,6 +709,16 @@ def stepRest (d : DW) (line : String) : DW × String :=
        let (e', o) := e.step j m
        ({ d with env := some e' }, s!"act {j} {m} {fmtStepOut e'.w.cfg.I o}")
      | _, _ => (d, "bad-op"))
+  | ["edauto", k] => (match d.env, k.toNat? with
+     -- the k-th legal decision dispatched on the environment's OWN dispatcher, not through `step` (an expert that drives
+     -- `env.dispatcher` directly): the state moves as with `eauto`, nothing is returned
+     | some e, some k =>
+       let acts := e.legalActions
+       if acts.isEmpty then (d, "no-legal-action") else
+       let (j, m) := acts.getD (k % acts.length) (0, 0)
+       let (e', _) := e.step j m
+       ({ d with env := some e' }, "ok")
+     | _, _ => (d, "bad-op"))
   | ["mauto", k] => (match d.menv, k.toNat? with
      | some mv, some k =>
        let acts := mv.env.legalActions
@@ -842,6 +852,7 @@ def stepAll (d : DW) (line : String) : DW × String :=
   | ["fork", _, _] => (d, "ok")
   | ["efork"] => (d, "ok")       -- … of the environment
   | ["mfork"] => (d, "ok")
+  | ["mother", _] => (d, "ok")   -- another environment is built, reset and dropped somewhere else in the process
   | ["cogb"] => (d, "ok")        -- a look-up of an existing reward observer by its base class: returns a subscriber, creates nothing
   | ["draw"] => (d, "ok")        -- a Gantt chart of the live schedule is drawn and thrown away: looking changes nothing
   | ["stamp"] => (d, "ok")       -- the caller writes notes into `Schedule.metadata`: a dictionary of the user's, no part of the state
